@@ -22,11 +22,13 @@ Conventions of the model
 * `ptrdiff_t` variables holding a node index or `-1` are `Int`; counters, degrees and level numbers are `Nat`;
   `perm` is an `Array Nat` (the incoming content of the caller's vector is an input, `perm0`).
 * every array access is bounds checked and an out-of-range access is the OUTCOME `oob` (never a default value):
-  `n = 0` (the code writes `perm[0]`, reads `degree[0]`), a column index `≥ n`, `perm` shorter than `n`.
+  a column index `≥ n`, `perm` shorter than `n`.  An empty matrix returns at once (`if (n == 0) return;`, added by the
+  fix of finding F41: before it the code wrote `perm[0]` and read `degree[0]` of empty vectors) and leaves `perm` as it
+  was.
 * `precondition(found, …)` is the outcome `precondition`.
 * the two unbounded loops (`for (next = 1; next < n; )`, `while (node > 0)`) carry a fuel argument; running out of fuel
   is the outcome `fuel`.  `get` passes `n` for both; `Properties/C16c.lean` proves that this outcome (like `oob` and
-  `precondition`) never occurs for a square well-formed pattern with `n ≥ 1`.
+  `precondition`) never occurs for a square well-formed pattern (any `n`).
 
 Core Lean only; the values of the matrix are never looked at (`K` arbitrary).
 -/
@@ -184,6 +186,7 @@ def initSt {K : Type} (A : CRS K) (perm0 : Array Nat) : Res St :=
 
 /-- `cuthill_mckee<reverse>::get(A, perm)` with explicit fuels for the main loop and for the list walks -/
 def getFuel {K : Type} (reverse : Bool) (A : CRS K) (perm0 : Array Nat) (mainFuel walkFuel : Nat) : Res (Array Nat) :=
+  if A.nrows = 0 then .ok perm0 else                             -- if (n == 0) return;   (perm is not touched)
   (initSt A perm0).bind fun s =>
   (mainLoop reverse A A.nrows (degrees A) walkFuel mainFuel s).bind fun s => .ok s.perm
 
